@@ -8,6 +8,7 @@ import Driver.C05Mon
 import Driver.C08Mon
 import Driver.C10Mon
 import Driver.C15Mon
+import Driver.C06Mon
 open Kv
 
 structure MState where
@@ -29,6 +30,7 @@ def dispatchMon (st : MState) (prop : String) (l : Line) : MState × String :=
   | "C08" => let (s, r) := Drv.C08.stepMon st.c08 l; ({ st with c08 := s }, r)
   | "C10" => (st, Drv.C10.step l)
   | "C15" => (st, Drv.C15.stepMon l)
+  | "C06" => (st, Drv.C06.step l)
   | _ => (st, "bad-op")
 
 def main : IO Unit := driverMain dispatchMon {}
